@@ -73,6 +73,11 @@ func c15Run(r *core.Run) {
 		r.Probe("subsecond_clock")
 	case 4:
 		r.Sim.Advance(time.Duration(t.Int(86400*400, "c15.advance")) * time.Second)
+		if tr := nextTransition(o.Cfg.Loc, o.Node.Now()); !tr.IsZero() {
+			// inside the hour around a daylight-saving transition
+			r.Sim.SetNow(tr.Add(time.Duration(t.Range(-3600, 3600, "c15.arounddst")) * time.Second).Add(-o.Cfg.Skew))
+			r.Probe("around_dst_transition")
+		}
 	}
 	if o.Cfg.Loc != time.UTC {
 		r.Probe("non_utc_location")
